@@ -13,6 +13,7 @@ from ..world import World
 PID = 'C04'
 NSS = ['/', '/a', '/b', '/zzz']
 KICK = object()
+CRASH = 'application connect handler fault'
 
 HANDLED = ['/', '/a']
 
@@ -26,6 +27,9 @@ def decision_st():
         st.just({'d': 'false'}),
         # the handler disconnects the client it is asked about, and returns
         st.just({'d': 'kick'}),
+        # the handler fails (an application fault): whatever the server
+        # makes of it, what the client was told and the server's books agree
+        st.just({'d': 'crash'}),
         st.fixed_dictionaries({'d': st.just('raise'),
                                'args': st.lists(val, max_size=4)}))
 
@@ -101,6 +105,8 @@ def build(case, w, log):
             return False
         if d['d'] == 'kick':
             return KICK if kick_ok(case) else None
+        if d['d'] == 'crash':
+            raise RuntimeError(CRASH)
         raise socketio.exceptions.ConnectionRefusedError(*d['args'])
 
     def on_connect(ns, sid, environ, auth=NO):
@@ -231,7 +237,9 @@ RULE = ('Model-based stateful testing over configurations always_connect x '
         'unserved and repeated namespaces -, client DISCONNECT, '
         'server.disconnect, transport loss, broadcasts and to-sid emits, with '
         'generated connect decisions (accept None/True, return False, raise '
-        'ConnectionRefusedError with 0-4 JSON args). Oracle: lifecycle model '
+        'ConnectionRefusedError with 0-4 JSON args, disconnect the client '
+        'itself, fail with another exception - then what the client was '
+        "told and the server's books must agree). Oracle: lifecycle model '
         '(handler once per admitted request with the auth payload, answer '
         'frames exactly as documented, fresh sids, no membership after a '
         'refusal, exactly one disconnect invocation per accepted connection '
@@ -416,6 +424,29 @@ def _run(case, w):
                 hsid = None
             if d['d'] == 'kick' and not kick_ok(case):
                 d = {'d': 'accept'}
+            if d['d'] == 'crash':
+                w.h.swallowed[:] = [e for e in w.h.swallowed
+                                    if CRASH not in repr(e)]
+                types = [p['type'] for p in pkts]
+                told = types == [wire.CONNECT] and ci is not None
+                if told:
+                    # the client was told it is connected: it is
+                    d = {'d': 'accept'}
+                    labels['connect_handler_fault_accepted'] = True
+                elif any(p['nsp'] != ns for p in pkts) or types not in (
+                        [], [wire.CONNECT_ERROR],
+                        [wire.CONNECT, wire.DISCONNECT]):
+                    raise Violation('crash-frames', repr(pkts))
+                else:
+                    # the client was not told it is connected: it is not
+                    if ci is not None:
+                        w.clients[ci]['alive'] = False
+                        w.clients[ci]['refused'] = True
+                    refused_sids.append((hsid, ns, t))
+                    check_dead(hsid, ns, 'connect handler failed,')
+                    labels['connect_handler_fault_refused'] = True
+                    labels['nontrivial'] = True
+                    continue
             if d['d'] == 'kick':
                 # the handler ended the connection itself: a DISCONNECT is
                 # the server's last word (after the CONNECT it had already
